@@ -40,7 +40,7 @@ P = {
         tech=TECH + 'bounded exhaustive enumeration for the regex half', ref='5 C14'),
     'C17': dict(
         text='Proof by structural induction over the procedural productions (block, IF..END IF, WHILE..DO..END WHILE, '
-             'LOOP..END LOOP, CASE expressions, nested blocks, plain statements inside bodies) as Hoare triples over '
+             'LOOP..END LOOP, CASE expressions, nested blocks, plain statements inside bodies incl. DDL with IF [NOT] EXISTS and the IF() function) as Hoare triples over '
              'the real splitter code in the context families BODY / INCASE / PROC0 / DECL; statement-level triple '
              '"CREATE .. BEGIN .. END ;" ends exactly at the final semicolon from the reset state.',
         note='Trusted: re for terminal tokenisation, the grammar as induction structure, pyvc, z3. Open findings are '
@@ -69,8 +69,8 @@ P['C04'] = dict(text='Proof: split and parse consume the same lexer+splitter pas
     note='Re-splitting a piece (lexing out of context) and the strip/partition arithmetic are bounded only. Trusted: re, str.strip.', tech=TECH + 'shape obligations + bounded stand-in', ref='5 C04')
 P['C06'] = dict(text='Proof of the tree-level clause by per-site SMT obligations over the heap model: on every path of the listed layout routines (strip-whitespace family, spaces-around-operators, reindent split/where/parenthesis/values/process, aligned split/parenthesis) every removed element is whitespace, every value store blanks a whitespace token, every inserted element is a fresh whitespace token, and no other token field is written; option validation proved for every option value; filter order and serializer by shape obligations.' + BND,
     note='Loops are over-approximated (arbitrary element, havoc-ed state, field taint); sibling calls by "may restructure its argument". Six routines (identifier-list / case layout, dispatchers) are covered by a syntactic inventory + bounded only. Re-lexing the output is regex semantics: bounded only.', tech=TECH + 'per-site obligations over a heap model', ref='5 C06')
-P['C07'] = dict(text='Proof of `raises subset {SQLParseError}` for validate_options over ALL option values (None|bool|int|float incl. inf/nan|str|other), for the lexer, consume, the splitter transition, the three stream filters, get_type, get_parent_name, remove_quotes, the neighbour-search helpers, group_tokens, _group_matching (six classes), the nine simple grouping passes, the joiner _group with its ten instantiating passes (closures total on every child and on None) and StripWhitespaceFilter.process (also on a statement without children) (every partial operation on every path); validation dominates formatting; RecursionError obligations of C15.' + BND,
-    note='The remaining accessors and the other tree filters: bounded stand-in (exhaustive 2-fragment soups + random soups x option sets, accessor walk, invalid option values).', tech=TECH + 'exceptional postconditions per function', ref='5 C07')
+P['C07'] = dict(text='Proof of `raises subset {SQLParseError}` for validate_options over ALL option values (None|bool|int|float incl. inf/nan|str|other), for the lexer, consume, the splitter transition, the three stream filters, get_type, get_parent_name, remove_quotes, the read-only accessors (is_wildcard, get_typecast, get_ordering, Comparison.left/right, get_window, get_parameters given a Parenthesis child, get_alias, get_real_name, get_name, has_alias, _get_first_name, get_identifiers, get_token_at_offset), the neighbour-search helpers, group_tokens, _group_matching (six classes), the nine simple grouping passes, the joiner _group with its ten instantiating passes (closures total on every child and on None) and StripWhitespaceFilter.process (also on a statement without children) (every partial operation on every path); validation dominates formatting; RecursionError obligations of C15.' + BND,
+    note='get_cases and the other tree filters: bounded stand-in (exhaustive 2-fragment soups + random soups x option sets, accessor walk, invalid option values).', tech=TECH + 'exceptional postconditions per function', ref='5 C07')
 P['C08'] = dict(text='Proof: KeywordCaseFilter, IdentifierCaseFilter, TruncateStringFilter are per-token maps (one output per input, same type, value changed only for the target types, truncation formula) for every stream; StripCommentsFilter per-site obligations (thorough tier): only non-hint comments are removed, only fresh whitespace inserted; its closure _get_insert_token returns a whitespace leaf allocated by the call (both tiers).' + BND,
     note='"No two tokens fused or split", idempotence: re-lexing, bounded only. Trusted: str case maps (uninterpreted total), re.', tech=TECH + 'generator contracts with ghost counters', ref='5 C08')
 P['C09'] = dict(text='Proof: group_tokens(cls, i, j) creates ONE group owning exactly tokens[i..j] (first child = tokens[i], last = tokens[j]); _group_matching for the six classes against a loop invariant over the stack of open positions (every pop groups [open, close] with open < close, the closer is the current token and matches M_CLOSE, only tokens matching M_OPEN are pushed, the stack stays sorted and below the cursor, groups of other classes are recursed into, enclosing delimiters are skipped); order of the six matching passes and their delimiter tables (data obligations); grouping passes write the tree only through group_tokens.' + BND + ' That the result equals the textbook matcher on the whole token stream (composition over nesting and passes) is decided by the bounded stand-in (independent stack matcher vs parsed tree).',
@@ -81,12 +81,12 @@ P['C11'] = dict(text='Proof per inspection site: Token.__init__ computes normali
     note='Same tree shape for respelled scripts end-to-end: bounded stand-in.', tech=TECH + 'site obligations + structural regex facts', ref='5 C11')
 P['C12'] = dict(text='Proof: remove_quotes removes exactly one surrounding pair (against its specification function); get_parent_name returns the unquoted value of the nearest non-whitespace child before the first dot, None without one; neighbour-search helpers; shape obligations for the other accessors.' + BND + ' (65k cases quick, full product thorough).',
     note='get_real_name, get_alias, get_name, has_alias over the Identifier shapes and the grouping that builds those shapes are not under SMT contracts: bounded.', tech=TECH + 'string VCs + bounded stand-in', ref='5 C12')
-P['C13'] = dict(text='Proof: first-match search for the clause-closing keyword, group_tokens span, group_where / group_functions / group_order call sites, coverage of group_where (no ungrouped WHERE keyword is left behind the cursor: every WHERE becomes a node) and the joiner _group with its passes for IdentifierList, Comparison, TypedLiteral, Operation (indices within the list, recursion into nested groups), data obligations on Where.M_CLOSE and friends, shape obligations on get_identifiers / Comparison.left,right.' + BND,
+P['C13'] = dict(text='Proof: first-match search for the clause-closing keyword, group_tokens span, group_where / group_functions / group_order call sites, coverage of group_where (no ungrouped WHERE keyword is left behind the cursor: every WHERE becomes a node) and the joiner _group with its passes for IdentifierList, Comparison, TypedLiteral, Operation (indices within the list, recursion into nested groups), IdentifierList.get_identifiers (yields exactly the children that are neither whitespace nor commas, in order), Comparison.left/right (first/last child), data obligations on Where.M_CLOSE and friends, shape obligations on get_identifiers / Comparison.left,right.' + BND,
     note='The extent of Where (which index group_where computes), which neighbours the joiner passes accept, get_parameters, get_cases: bounded.', tech=TECH + 'data obligations + bounded stand-in', ref='5 C13')
 P['C15'] = dict(text='Proof of the exceptional-postcondition obligations: FilterStack.run is one try whose RecursionError handler raises SQLParseError and every pipeline call is inside it; the entry points make no tree-recursive call outside the consumption of run() (split: statements are flat because grouping is never enabled); no shared state is written (frame obligations).' + BND,
     note='Assumed: CPython raises RecursionError rather than overflowing the C stack.', tech=TECH + 'structural obligations over the AST and call graph', ref='5 C15')
-P['C18'] = dict(text='Proof: Statement.get_type() returns the normalized text of the first child that is neither whitespace nor comment when it is DML/DDL, UNKNOWN when there is none or it is not DML/DDL/CTE, for every statement (neighbour-search contracts, first-match uniqueness); Token.__init__ makes normalized the upper-cased, whitespace-collapsed value; typing tables.' + BND,
-    note='Which DML keyword is found for WITH statements, and lexing of the first word in context: bounded.', tech=TECH + 'accessor contract over the heap model', ref='5 C18')
+P['C18'] = dict(text='Proof: Statement.get_type() returns the normalized text of the first child that is neither whitespace nor comment when it is DML/DDL, UNKNOWN when there is none or it is not DML/DDL/CTE, and for WITH the DML keyword that directly follows the first Identifier/IdentifierList child behind WITH (loop invariant over the CTE walk with ghosts computed by the verified search helpers), for every statement (neighbour-search contracts, first-match uniqueness); no DML/DDL/CTE entry of a keyword dictionary is shadowed by an earlier dictionary; Token.__init__ makes normalized the upper-cased, whitespace-collapsed value; typing tables.' + BND,
+    note='WITH statements whose definitions are not one Identifier/IdentifierList node directly followed by the DML keyword, and lexing of the first word in context: bounded.', tech=TECH + 'accessor contract over the heap model', ref='5 C18')
 P['C19'] = dict(text='Proof: Lexer.get_tokens scans exactly the text for str, the decoding with the given codec for bytes+encoding, UTF-8 else Latin-1 for bytes without encoding, the stream content for text streams, and rejects anything else with TypeError (five contract cases over the real code); one decode point; (text, encoding) passed unchanged through the entry points; parse = tuple(parsestream); CLI dataflow incl. read-before-open.' + BND,
     note='Trusted: codecs (uninterpreted partial decode), argparse mapping (bounded).', tech=TECH + 'case contracts + dataflow obligations', ref='5 C19')
 
